@@ -9,7 +9,7 @@
       map over two lists                       stops at the shorter list
 
     Cursors are byte offsets into the string's own slice: string-cursor-start = 0,
-    string-cursor-end s = [cursor_end s] = [ssize s], string-cursor-ref s i = [decode_at (sdata h s) i],
+    string-cursor-end s = [cursor_end s] = [ssize s], string-cursor-ref s i = [decode_at (sdata h s) i (remaining s i)],
     string-cursor-next s i = [cursor_next h s i]  (Model.v).  The one-string string-map of
     RangeModel.v ([map_loop] / [string_map]) stays; this file adds the arm taken when [los] is not empty. *)
 From ChibiV Require Export C12.RangeModel.
@@ -44,7 +44,7 @@ Definition any_at_end (ss : list str) (is : list nat) : bool :=
   any2 (fun s i => (cursor_end s <=? i)%nat) ss is.
 (** string.sld:38  (map string-cursor-ref los is) *)
 Definition cursor_refs (h : heap) (ss : list str) (is : list nat) : option (list Z) :=
-  all_some (map2 (fun s i => decode_at (sdata h s) i) ss is).
+  all_some (map2 (fun s i => decode_at (sdata h s) i (remaining s i)) ss is).
 (** string.sld:39  (map string-cursor-next los is) *)
 Definition cursor_nexts (h : heap) (ss : list str) (is : list nat) : list nat :=
   map2 (fun s i => cursor_next h s i) ss is.
@@ -78,7 +78,7 @@ Fixpoint fold1_loop {A : Type} (fuel : nat) (h : heap) (s : str) (i : nat)
   | O => Err FuelErr
   | S fu =>
       if (cursor_end s <=? i)%nat then Ok a
-      else match decode_at (sdata h s) i with
+      else match decode_at (sdata h s) i (remaining s i) with
            | None => Err Utf8Err
            | Some c => match proc a [c] with
                        | Err e => Err e
